@@ -50,6 +50,23 @@ func (s *badgerStore) Close() error {
 	return s.db.Close()
 }
 
+// maxConflictRetries is the number of times a transaction is retried when it
+// conflicts with a concurrent transaction.
+const maxConflictRetries = 64
+
+// update runs fn in a read-write transaction. Badger's transactions are
+// optimistic: when another transaction commits a key that this one read, the
+// commit fails with ErrConflict and the transaction needs to be run again.
+func (s *badgerStore) update(fn func(txn *badger.Txn) error) error {
+	var err error
+	for i := 0; i < maxConflictRetries; i++ {
+		if err = s.db.Update(fn); err != badger.ErrConflict {
+			return err
+		}
+	}
+	return err
+}
+
 func (s *badgerStore) CheckAndSaveNonce(ID string, nonce int64) error {
 	// If nonceExpire is set, nonce should be within nonceExpire of now.
 	if s.nonceExpire > 0 {
@@ -59,7 +76,7 @@ func (s *badgerStore) CheckAndSaveNonce(ID string, nonce int64) error {
 		}
 	}
 	key := []byte(fmt.Sprintf("vip:nonce:%s", ID))
-	return s.db.Update(func(txn *badger.Txn) error {
+	return s.update(func(txn *badger.Txn) error {
 		var lastNonce int64
 		if err := getItem(txn, key, &lastNonce); err == nil {
 			if lastNonce >= nonce {
@@ -123,7 +140,7 @@ func (s *badgerStore) GetNodeBalance(nodeID store.NodeID) (store.Balance, error)
 // that get migrated later.
 func (s *badgerStore) AddNodeBalance(nodeID store.NodeID, credit *big.Int) error {
 	accountKey := []byte(fmt.Sprintf("vip:account:%s", nodeID))
-	return s.db.Update(func(txn *badger.Txn) error {
+	return s.update(func(txn *badger.Txn) error {
 		var account store.Account
 		balanceKey := []byte(fmt.Sprintf("vip:trial:%s", nodeID))
 		if err := getItem(txn, accountKey, &account); err == badger.ErrKeyNotFound {
@@ -166,7 +183,7 @@ func (s *badgerStore) GetAccountBalance(account store.Account) (store.Balance, e
 
 // AddNodeBalance adds credit to an account balance. (Can be negative)
 func (s *badgerStore) AddAccountBalance(account store.Account, credit *big.Int) error {
-	return s.db.Update(func(txn *badger.Txn) error {
+	return s.update(func(txn *badger.Txn) error {
 		balanceKey := []byte(fmt.Sprintf("vip:balance:%s", account))
 		var balance store.Balance
 		if err := getItem(txn, balanceKey, &balance); err == badger.ErrKeyNotFound {
@@ -186,7 +203,7 @@ func (s *badgerStore) AddAccountBalance(account store.Account, credit *big.Int) 
 // balance. This should migrate any existing node's balance credit to the
 // account.
 func (s *badgerStore) AddAccountNode(account store.Account, nodeID store.NodeID) error {
-	return s.db.Update(func(txn *badger.Txn) error {
+	return s.update(func(txn *badger.Txn) error {
 		// Check nodeID
 		nodeKey := []byte(fmt.Sprintf("vip:node:%s", nodeID))
 		if !hasKey(txn, nodeKey) {
@@ -368,7 +385,7 @@ func (s *badgerStore) SetNode(n store.Node) error {
 		return store.ErrMalformedNode
 	}
 	key := []byte(fmt.Sprintf("vip:node:%s", n.ID))
-	return s.db.Update(func(txn *badger.Txn) error {
+	return s.update(func(txn *badger.Txn) error {
 		simhook.Yield("badger.SetNode.write")
 		return setItem(txn, key, &n)
 	})
@@ -417,7 +434,11 @@ func (s *badgerStore) UpdateNodePeers(nodeID store.NodeID, peers []string, block
 	now := time.Now()
 	var node store.Node
 	nodePeers := map[store.NodeID]time.Time{}
-	err = s.db.Update(func(txn *badger.Txn) error {
+	err = s.update(func(txn *badger.Txn) error {
+		// The transaction is retried on conflict, start from scratch each time.
+		inactive = nil
+		nodePeers = map[store.NodeID]time.Time{}
+
 		// Update this node's LastSeen
 		if err := getItem(txn, nodeKey, &node); err == badger.ErrKeyNotFound {
 			return store.ErrUnregisteredNode
